@@ -435,6 +435,8 @@ func runC16(c *Ctx, r *Report) {
 		"GET /?offset=-1 indexes a slice with a negative number: fzf panics on the server goroutine (remote crash)")
 	c16r6(c, r)
 
+	c16round2(c, r)
+
 	// reported only
 	r.note("reported, not judged: the remote-action filter processExecution lists execute/become/reload-style actions; transform-* variants that it omits are outside the property's text")
 }
